@@ -10,7 +10,7 @@ for w in $(seq 0 $((N-1))); do
   ( d=/tmp/vw$w; rm -rf $d; git -C /verif worktree prune; git -C /verif worktree add -q --detach $d HEAD
     for id in $(cat /tmp/seedall_$w.lst); do
       p=$(python3 -c "import json;print(json.load(open('/verif/seeded/$id/meta.json'))['breaks_property'])" 2>/dev/null || echo ${id:0:3})
-      extra=""; [ "$id" = "C05_m2" ] && extra="C12"; [ "$id" = "C02b_m2" ] && extra="C11"; [ "$id" = "C13b_m1" ] && extra="C01"
+      extra=""; [ "$id" = "C05_m2" ] && extra="C12"; [ "$id" = "C02b_m2" ] && extra="C11"; [ "$id" = "C13b_m1" ] && extra="C01"; [ "$id" = "C06c_m3" ] && extra="C09"; [ "$id" = "C08c_m1" ] && extra="C18"; [ "$id" = "C09c_m1" ] && extra="C12"; [ "$id" = "C11c_m3" ] && extra="C07"
       WT_TARGET=/tmp/wt/target_w$w VERIF_DIR=$d python3 /verif/lib/wtrun.py /verif/seeded/$id/patch.diff w${w}_$id $p $extra
     done
     git -C /verif worktree remove --force $d ) > /tmp/seedall_$w.out 2>&1 &
